@@ -42,7 +42,7 @@ Fixpoint healthy (interval : N) (last_tick : N) (acts : list kact) : Prop :=
   | [] => True
   | KTick now ok :: KPong p :: rest => ok = true /\ last_tick <= now /\ now - last_tick <= interval /\ now <= p /\ healthy interval now rest
   | KTick now ok :: [] => ok = true /\ last_tick <= now /\ now - last_tick <= interval
-  | KRecovered :: rest => healthy interval last_tick rest
+  | KRecovered _ :: rest => healthy interval last_tick rest
   | KPeerPing _ _ :: rest => healthy interval last_tick rest
   | _ => False
   end.
@@ -63,23 +63,47 @@ Proof.
      N.of_nat (length acts) + k_counter s + 1 < 4294967296 -> ~ In KRecycle (snd (krun timeout s acts))).
   { induction n as [|n IH]; intros acts L s lt H R P B.
     - destruct acts; [cbn; auto|cbn in L; lia].
-    - destruct acts as [|a rest]; [cbn; auto|]. destruct a as [now ok|p| |b|id body]; cbn [healthy] in H; try contradiction.
+    - destruct acts as [|a rest]; [cbn; auto|]. destruct a as [now ok|p|rnow|b|id body]; cbn [healthy] in H; try contradiction.
       + (* tick *)
         destruct rest as [|a2 rest2].
         * cbn [healthy] in H. destruct H as (-> & H1 & H2). cbn [krun]. rewrite ping_schedule; [|exact R|destruct P; [left; assumption|right; lia]|cbn [length] in B; lia].
           cbn. intros [E|[]]. discriminate.
-        * destruct a2 as [n2 o2|p| |b|id body]; cbn [healthy] in H; try contradiction. destruct H as (-> & H1 & H2 & H3 & H4).
+        * destruct a2 as [n2 o2|p|rnow|b|id body]; cbn [healthy] in H; try contradiction. destruct H as (-> & H1 & H2 & H3 & H4).
           cbn [krun]. rewrite ping_schedule; [|exact R|destruct P; [left; assumption|right; lia]|cbn [length] in B; lia].
           cbn [krun kstep k_last_ka k_last_pong k_counter k_reconnecting]. set (s2 := mkK (k_counter s + 1) p (k_counter s + 1) false).
           destruct (krun timeout s2 rest2) as [s3 e3] eqn:K. cbn [snd app]. intros [E|I]; [discriminate|].
           apply (IH rest2 ltac:(cbn [length] in L; lia) s2 now H4 eq_refl); [right; unfold s2; cbn [k_last_pong]; exact H3|unfold s2; cbn [k_counter]; cbn [length] in B; lia|].
           rewrite K. exact I.
       + (* recovered *)
-        cbn [krun kstep]. destruct (krun timeout (mkK 0 (k_last_pong s) 0 false) rest) as [s3 e3] eqn:K. cbn [snd app]. intros I.
-        apply (IH rest ltac:(cbn [length] in L; lia) (mkK 0 (k_last_pong s) 0 false) lt H eq_refl); [left; reflexivity|cbn [k_counter]; cbn [length] in B; lia|].
+        cbn [krun kstep]. destruct (krun timeout (mkK 0 rnow 0 false) rest) as [s3 e3] eqn:K. cbn [snd app]. intros I.
+        apply (IH rest ltac:(cbn [length] in L; lia) (mkK 0 rnow 0 false) lt H eq_refl); [left; reflexivity|cbn [k_counter]; cbn [length] in B; lia|].
         rewrite K. exact I.
       + (* peer ping *)
         cbn [krun kstep]. destruct (krun timeout s rest) as [s3 e3] eqn:K. cbn [snd app]. intros [E|I]; [discriminate|].
         apply (IH rest ltac:(cbn [length] in L; lia) s lt H R P); [cbn [length] in B; lia|]. rewrite K. exact I. }
   intros acts s lt. apply (G (length acts) acts (le_n _)).
 Qed.
+
+(* a recovery leaves the keepalive exactly where Dial leaves it: no heartbeat awaited, the clock of the last answer
+   started now.  Whatever a freshly dialled client does from time [now] on, a recovered one does. *)
+Theorem recovered_is_fresh timeout s now : kstep timeout s (KRecovered now) = (k0 now, []).
+Proof. reflexivity. Qed.
+Corollary recovered_like_fresh timeout s now acts :
+  snd (krun timeout s (KRecovered now :: acts)) = snd (krun timeout (k0 now) acts).
+Proof. cbn [krun kstep]. fold (k0 now). destruct (krun timeout (k0 now) acts) as [s2 e2]. reflexivity. Qed.
+
+(* the rule the client had before (repair 0c8c1ad): the time of the last answer survived the recovery.  A peer that
+   answers every heartbeat after 150 ms (interval 100, timeout 250) is then recycled on the connection the recovery
+   established, although the same schedule is fine after Dial - the witness that was replayed on the implementation *)
+Definition old_recovered (s : kstate) : kstate := mkK 0 (k_last_pong s) 0 false.
+Definition slow_peer_schedule (t0 : N) : list kact :=
+  [KTick (t0 + 100) true; KTick (t0 + 200) true; KPong (t0 + 250); KTick (t0 + 300) true; KPong (t0 + 350);
+   KTick (t0 + 400) true; KPong (t0 + 450); KTick (t0 + 500) true; KPong (t0 + 550)].
+Example slow_peer_fine_after_dial : no_recycle (snd (krun 250 (k0 0) (slow_peer_schedule 0))).
+Proof. unfold no_recycle. vm_compute. intuition discriminate. Qed.
+Example slow_peer_fine_after_recovery :
+  no_recycle (snd (krun 250 (mkK 3 0 3 false) (KRecovered 400 :: slow_peer_schedule 400))).
+Proof. unfold no_recycle. vm_compute. intuition discriminate. Qed.
+Example old_rule_refuted :
+  In KRecycle (snd (krun 250 (old_recovered (mkK 3 0 3 false)) (slow_peer_schedule 400))).
+Proof. vm_compute. intuition. Qed.
